@@ -83,7 +83,16 @@ class Parser:
                 if a[0] == "block" and not a[1] and a[2] is not None:
                     stmts.append(("ifret", c, a[2]))
                     continue
-                raise TranslateError("an `if` without `else` that is not an early return")
+                stmts.append(("ifblock", c, a))
+                continue
+            if self.at("for"):
+                self.next()
+                pat = self.pattern()
+                self.expect("in")
+                it = self.expr()
+                body = self.block()
+                stmts.append(("for", pat, it, body))
+                continue
             if self.at("let"):
                 self.next()
                 if self.at("mut"):
@@ -196,6 +205,18 @@ class Parser:
             return e
         if text == "{":
             return self.block()
+        if text == "move" or text == "|":
+            # a closure: [move] |pattern, ...| body
+            if text == "move":
+                self.next()
+            self.expect("|")
+            pats = []
+            while not self.at("|"):
+                pats.append(self.pattern())
+                if self.at(","):
+                    self.next()
+            self.expect("|")
+            return ("closure", pats, self.expr())
         if text == "if":
             self.next()
             c = self.expr()
@@ -393,6 +414,17 @@ def emit(n, cx):
             # a.checked_div(b).unwrap_or(0) on unsigned integers
             num, den = emit(recv[1], cx), emit(recv[3][0], cx)
             return "(if N.eqb %s 0 then 0%%N else N.div %s %s)" % (den, num, den)
+        if name in ("map", "flat_map") and len(args) == 1:
+            f = emit(args[0], cx) if args[0][0] == "closure" else (cx.calls.get(key(args[0]) or "") or None)
+            if f is None:
+                raise TranslateError("unknown function value %s" % key(args[0]))
+            return "(%s %s %s)" % ("map" if name == "map" else "flat_map", f, emit(recv, cx))
+        if name == "enumerate" and not args:
+            return "(enumerate %s)" % emit(recv, cx)
+        if name == "skip" and len(args) == 1:
+            return "(skipn %s %s)" % (emit(args[0], cx), emit(recv, cx))
+        if name in ("iter", "into_iter") and not args:
+            return emit(recv, cx)
         r = emit(recv, cx)
         a = [emit(x, cx) for x in args]
         if name == "powi":
@@ -421,6 +453,8 @@ def emit(n, cx):
         raise TranslateError("unsupported cast `%s as %s`" % (key(inner), n[2]))
     if t == "field":
         raise TranslateError("unknown field access %s" % k)
+    if t == "closure":
+        return "(fun %s => %s)" % (" ".join(pat_text(p) for p in n[1]), emit(n[2], cx))
     if t == "tuple":
         return "(%s)" % ", ".join(emit(x, cx) for x in n[1])
     if t == "if":
@@ -442,7 +476,7 @@ def emit(n, cx):
                 return "(let %s := %s in %s)" % (s[1], rhs, rest(i + 1))
             if s[0] == "ifret":
                 return "(if %s then %s else %s)" % (emit(s[1], cx), emit(s[2], cx), rest(i + 1))
-            raise TranslateError("unsupported statement")
+            raise TranslateError("unsupported statement (%s) outside a search loop" % s[0])
         return rest(0)
     if t == "match":
         scrut, arms = n[1], n[2]
@@ -486,6 +520,46 @@ def emit(n, cx):
                 emit(scrut[1][0], cx), x, emit(arms[0][2], cx), emit(scrut[1][1], cx), y, e2, e3)
         raise TranslateError("unsupported match shape")
     raise TranslateError("unsupported construct %s" % t)
+
+
+def pat_text(p):
+    if p[0] == "bind":
+        return p[1]
+    if p[0] == "wild":
+        return "_"
+    if p[0] == "tuple":
+        return "'(%s)" % ", ".join(pat_text(q).lstrip("'") for q in p[1])
+    raise TranslateError("unsupported closure / loop pattern")
+
+
+def emit_search(block, cx):
+    """a block whose only effect is `return true` under conditions, possibly inside `for` loops: the Boolean
+    'does it return true?' as nested existsb / orb / andb"""
+    if block[0] != "block":
+        raise TranslateError("not a block")
+
+    def rest(i):
+        if i == len(block[1]):
+            if block[2] is None:
+                return "false"
+            if block[2] == ("var", "true"):
+                return "true"
+            if block[2] == ("var", "false"):
+                return "false"
+            raise TranslateError("a search loop body may only end in true / false")
+        s = block[1][i]
+        if s[0] == "let":
+            return "(let %s := %s in %s)" % (s[1], emit(s[2], cx), rest(i + 1))
+        if s[0] == "ifret":
+            if s[2] != ("var", "true"):
+                raise TranslateError("a search loop may only `return true`")
+            return "(orb %s %s)" % (emit(s[1], cx), rest(i + 1))
+        if s[0] == "ifblock":
+            return "(orb (andb %s %s) %s)" % (emit(s[1], cx), emit_search(s[2], cx), rest(i + 1))
+        if s[0] == "for":
+            return "(orb (existsb (fun %s => %s) %s) %s)" % (pat_text(s[1]), emit_search(s[3], cx), emit(s[2], cx), rest(i + 1))
+        raise TranslateError("unsupported statement in a search loop")
+    return rest(0)
 
 
 def fn_body(src, name, nth=0, after=None):
